@@ -76,6 +76,46 @@ func c04prop(ev *evid.Rec) func(rt *rapid.T) {
 			pw["guest"] = p
 			accounts = append(accounts, acct("guest", "Guest", p, allAccess))
 		}
+		// ---- edits an administrator makes through the protocol before the attempt: "existing account" and "current
+		// password" are meant at the time of the login, in the same server lifetime
+		type c04edit struct{ kind, login, newLogin, newPw string }
+		var edits []c04edit
+		oldPw := map[string]string{} // what used to be valid for a login before an edit
+		var editedNames []string
+		for i, n := 0, rapid.SampledFrom([]int{0, 0, 1, 2}).Draw(rt, "nedits"); i < n; i++ {
+			var live []string
+			for _, l := range pool {
+				if _, ok := pw[l]; ok && !broken[l] {
+					live = append(live, l)
+				}
+			}
+			if len(live) == 0 {
+				break
+			}
+			e := c04edit{kind: rapid.SampledFrom([]string{"rename", "rename", "password", "delete"}).Draw(rt, fmt.Sprintf("edit%d", i)), login: rapid.SampledFrom(live).Draw(rt, fmt.Sprintf("editlogin%d", i))}
+			oldPw[e.login] = pw[e.login]
+			editedNames = append(editedNames, e.login)
+			switch e.kind {
+			case "rename":
+				var free []string
+				for _, l := range append([]string{"renamed"}, pool...) {
+					if _, ok := pw[l]; !ok {
+						free = append(free, l)
+					}
+				}
+				e.newLogin = rapid.SampledFrom(free).Draw(rt, fmt.Sprintf("editnew%d", i))
+				pw[e.newLogin] = pw[e.login]
+				delete(pw, e.login)
+				delete(oldPw, e.newLogin)
+				editedNames = append(editedNames, e.newLogin)
+			case "password":
+				e.newPw = rapid.SampledFrom(c04Passwords).Draw(rt, fmt.Sprintf("editpw%d", i))
+				pw[e.login] = e.newPw
+			case "delete":
+				delete(pw, e.login)
+			}
+			edits = append(edits, e)
+		}
 		// ---- the attempt
 		hsKind := rapid.SampledFrom([]string{"valid", "valid", "valid", "valid", "valid", "valid", "version", "mutated", "random", "truncated"}).Draw(rt, "handshake")
 		hs := hlref.Handshake(1, 2)
@@ -92,21 +132,34 @@ func c04prop(ev *evid.Rec) func(rt *rapid.T) {
 		}
 		hsValid := len(hs) == 12 && string(hs[0:8]) == "TRTPHOTL"
 
-		cands := append([]string{"", "nobody", "guest", "OBS", "Alice"}, pool...)
+		cands := append([]string{"", "nobody", "guest", "OBS", "Alice", "renamed"}, pool...)
 		login := rapid.SampledFrom(cands).Draw(rt, "login")
+		if len(editedNames) > 0 && rapid.Bool().Draw(rt, "aimAtEdited") {
+			login = rapid.SampledFrom(editedNames).Draw(rt, "editedLogin")
+		}
 		loginAbsent := login == "" && rapid.Bool().Draw(rt, "loginAbsent")
 		effLogin := login
 		if effLogin == "" {
 			effLogin = "guest"
 		}
 		truePw, exists := pw[effLogin]
-		pwKind := rapid.SampledFrom([]string{"correct", "correct", "empty", "absent", "wrong", "prefix", "bitoff", "cleartext", "other", "longer"}).Draw(rt, "pwkind")
+		pwKind := rapid.SampledFrom([]string{"correct", "correct", "empty", "absent", "wrong", "prefix", "bitoff", "cleartext", "other", "longer", "previous"}).Draw(rt, "pwkind")
 		var wirePw []byte
 		basis := truePw
 		if !exists {
-			basis = rapid.SampledFrom(c04Passwords).Draw(rt, "basis")
+			if op, ok := oldPw[effLogin]; ok {
+				basis = op // "correct" for a login that was renamed away or deleted means: what used to be right
+			} else {
+				basis = rapid.SampledFrom(c04Passwords).Draw(rt, "basis")
+			}
 		}
 		switch pwKind {
+		case "previous":
+			if op, ok := oldPw[effLogin]; ok {
+				wirePw = hlref.Obfuscate([]byte(op))
+			} else {
+				wirePw = hlref.Obfuscate([]byte("previous-" + basis[:min(len(basis), 8)]))
+			}
 		case "correct":
 			wirePw = hlref.Obfuscate([]byte(basis))
 		case "empty":
@@ -209,6 +262,21 @@ func c04prop(ev *evid.Rec) func(rt *rapid.T) {
 			for i := 0; i < nobs; i++ {
 				obs = append(obs, loginAs(rt, w, fmt.Sprintf("10.0.0.%d:4000", i+1), "obs", "obspw", fmt.Sprintf("obs%d", i)))
 			}
+			for _, e := range edits {
+				var r *hlref.Tran
+				switch e.kind {
+				case "rename":
+					r = obs[0].Request(hlref.TranUpdateUser, hlref.F(hlref.FData, hlref.EncodeFields([]hlref.Field{hlref.F(hlref.FData, hlref.Obfuscate([]byte(e.login))),
+						hlref.F(hlref.FUserLogin, hlref.Obfuscate([]byte(e.newLogin))), sfld(hlref.FUserName, "N-"+e.login), hlref.F(hlref.FUserAccess, allAccess[:]), hlref.F(hlref.FUserPassword, []byte{0})})))
+				case "password":
+					r = obs[0].Request(hlref.TranSetUser, hlref.F(hlref.FUserLogin, hlref.Obfuscate([]byte(e.login))), sfld(hlref.FUserName, "N-"+e.login), hlref.F(hlref.FUserAccess, allAccess[:]), hlref.F(hlref.FUserPassword, hlref.Obfuscate([]byte(e.newPw))))
+				case "delete":
+					r = obs[0].Request(hlref.TranDeleteUser, hlref.F(hlref.FUserLogin, hlref.Obfuscate([]byte(e.login))))
+				}
+				if !okReply(r) {
+					rt.Fatalf("harness: account edit %+v refused: %s", e, replySummary(r))
+				}
+			}
 			for _, o := range obs {
 				o.TakeInbox()
 			}
@@ -300,7 +368,10 @@ func c04prop(ev *evid.Rec) func(rt *rapid.T) {
 		if broken[effLogin] {
 			ev.Label("login names an account with an unusable stored hash", 1)
 		}
-		ev.Case(evid.Hash(hs, first, fmt.Sprint(appKinds), banKind, fmt.Sprint(logins), withGuest, fmt.Sprint(broken)), nt, lab, "hs:"+hsKind, "pw:"+pwKind, "ban:"+banKind)
+		ev.Case(evid.Hash(hs, first, fmt.Sprint(appKinds), banKind, fmt.Sprint(logins), withGuest, fmt.Sprint(broken), fmt.Sprint(edits)), nt, lab, "hs:"+hsKind, "pw:"+pwKind, "ban:"+banKind, fmt.Sprintf("edits:%d", len(edits)))
+		if _, was := oldPw[effLogin]; was {
+			ev.Label("login names an account edited (renamed, re-passworded, deleted) since the server started", 1)
+		}
 		if nt && ev.WantSample() {
 			ev.Sample(map[string]any{"accounts": logins, "guest": withGuest, "handshake": hsKind, "login": login, "password_variant": pwKind,
 				"first_type": tranType, "appended": appKinds, "same_write": sameWrite, "ban": banKind, "expected": lab})
